@@ -136,8 +136,8 @@ class Sites:
         self.lines = {}
         fn = {n.name: n for n in ast.walk(self.tree) if isinstance(n, ast.FunctionDef)}
         self.fn = fn
-        pn = fn["process_node"]
-        for n in ast.walk(pn):
+        pn = fn.get("process_node")
+        for n in (ast.walk(pn) if pn is not None else ()):
             if isinstance(n, ast.If) and isinstance(n.test, ast.Name) and n.test.id == "stop":
                 self.lines["readstop"] = n.lineno
             if isinstance(n, ast.AugAssign) and isinstance(n.target, ast.Name) and n.target.id == "error_count":
@@ -150,19 +150,23 @@ class Sites:
                     self.lines["fail_with"] = (n.lineno, n.end_lineno)
                 if nm == "remaining_pred_count_lock":
                     self.lines["rem_with"] = (n.lineno, n.end_lineno)
-        rf = fn["run_function_on_graph"]
-        for n in ast.walk(rf):
+        rf = fn.get("run_function_on_graph")
+        inner = set(ast.walk(pn)) if pn is not None else set()
+        for n in (ast.walk(rf) if rf is not None else ()):
             if isinstance(n, ast.Assign) and isinstance(n.targets[0], ast.Name) and n.targets[0].id == "stop" \
-                    and isinstance(n.value, ast.Constant) and n.value.value is True and n not in ast.walk(pn):
+                    and isinstance(n.value, ast.Constant) and n.value.value is True and n not in inner:
                 self.lines["setstop"] = n.lineno
         self.missing = [k for k in ("readstop", "failblk", "dec", "setstop") if k not in self.lines]
+        self.missing += ["function:" + k for k in ("process_node", "run_function_on_graph", "worker_thread", "worker_pool", "prepare_nodes") if k not in fn]
+        # fail-closed: without every statement the tracer keys on, an instrumented run means nothing (and may not even terminate)
+        self.usable = not self.missing
 
     def skeleton(self):
         """Normalised AST dump of the four engine functions: the synchronisation skeleton the model was written against."""
         out = []
         for name in ("worker_thread", "worker_pool", "prepare_nodes", "run_function_on_graph"):
-            node = self.fn[name]
-            out.append(ast.dump(node, annotate_fields=False, include_attributes=False))
+            node = self.fn.get(name)
+            out.append("MISSING:" + name if node is None else ast.dump(node, annotate_fields=False, include_attributes=False))
         return "\n".join(out)
 
 
